@@ -130,8 +130,10 @@ func NewWorld(seed int64, tr *Trace, hist int, o WorldOpts) (*World, error) {
 	w.addQuery("qtrb", cl[2])
 	w.addQuery("qsol", SpotQuery("sol", "usd"))
 	w.addQuery("qada", SpotQuery("ada", "usd"))
-	for i := uint64(1); i <= 3; i++ {
+	for i := uint64(1); i <= 8; i++ {
 		w.addQuery(fmt.Sprintf("dep%d", i), BridgeQuery(true, i))
+	}
+	for i := uint64(1); i <= 60; i++ {
 		w.addQuery(fmt.Sprintf("wd%d", i), BridgeQuery(false, i))
 	}
 	w.NextDep = 1
@@ -416,8 +418,41 @@ func (w *World) UpdateTeam(cur, nw *Actor) PhaseResult {
 }
 
 func (w *World) WithdrawTokens(a *Actor, recipient string, amt int64) PhaseResult {
-	return w.do("WithdrawTokens", Rec{"who": a.Name, "rcpt": recipient, "amt": NumI64(amt)},
-		&bridgetypes.MsgWithdrawTokens{Creator: a.Addr.String(), Recipient: recipient, Amount: coin(amt)})
+	msg := &bridgetypes.MsgWithdrawTokens{Creator: a.Addr.String(), Recipient: recipient, Amount: coin(amt)}
+	_, r := w.Exec(msg)
+	// the requested recipient as a 20-byte address: shorter inputs are left-padded with zeros (a string
+	// operation); longer ones are not addresses ("toolong": no requirement on what is published)
+	norm := strings.ToLower(recipient)
+	if len(norm) <= 40 {
+		norm = strings.Repeat("0", 40-len(norm)) + norm
+	} else {
+		norm = "toolong"
+	}
+	args := Rec{"who": a.Name, "whoaddr": a.Addr.String(), "rcpt": strings.ToLower(recipient), "rcptnorm": norm, "amt": NumI64(amt)}
+	if r.Ok {
+		// what was published: the aggregate under the withdrawal query of the id just issued (decoded with the Go ABI library)
+		pub := Rec{"found": false}
+		if wid, err := w.App.BridgeKeeper.WithdrawalId.Get(w.Ctx); err == nil {
+			pub["id"] = int(wid.Id)
+			qid := utils.QueryIDFromData(BridgeQuery(false, wid.Id))
+			if agg, ts, err := w.App.OracleKeeper.GetCurrentAggregateReport(w.Ctx, qid); err == nil && agg != nil {
+				pub["found"] = true
+				pub["ts"] = NumI64(ts.UnixMilli())
+				pub["nreporters"] = len(agg.Reporters)
+				if b, e := hex.DecodeString(agg.AggregateValue); e == nil {
+					if vals, e := (abi.Arguments{{Type: tAddress}, {Type: tString}, {Type: tUint256}, {Type: tUint256}}).Unpack(b); e == nil {
+						pub["rcpt"] = strings.ToLower(hex.EncodeToString(vals[0].(common.Address).Bytes()))
+						pub["sender"] = vals[1].(string)
+						pub["amount"] = NumBig(vals[2].(*big.Int))
+						pub["tip"] = NumBig(vals[3].(*big.Int))
+					}
+				}
+			}
+		}
+		args["pub"] = pub
+	}
+	w.emit("WithdrawTokens", args, r)
+	return r
 }
 
 // claimInfo projects, for each (deposit id, index) of a claim, what the oracle store holds at that
